@@ -267,7 +267,7 @@ def corr_clean(chk, exes, d, n_random, broken):
                 broken.append({"kind": "correspondence", "msg": f"clean-inproc: {n!r} ({kinds[n]}): real removed={gone}, model `{m1}`"})
             if (m1 == "val true") != spec:
                 broken.append({"kind": "model-vs-spec", "msg": f"clean: model `{m1}` for {n!r} but pattern match is {spec}"})
-        other = [p for p in (created | modified) if True] + [p for p in deleted if not p.startswith(b"cleandir/")]
+        other = sorted(created | modified) + [p for p in deleted if not p.startswith(b"cleandir/")]
         for p in other:
             chk.violation(f"clean-touches-{p.hex()}", f"cleanImplementationFiles changed {p!r}",
                           {"kind": "clean-inproc", "names": [x.hex() for x in names], "kinds": kinds_json(kinds), "offending": p.hex()}, True)
@@ -291,8 +291,6 @@ def corr_implnames(chk, exes, d, n_random, broken):
         idx |= {10**k - 1, 10**k, 10**k + 1}
     for k in range(0, 32):
         idx |= {2**k, 2**k - 1}
-    while len(idx) < len(idx) + 0 and False:
-        pass
     for _ in range(n_random):
         idx.add(rng.randrange(2**32))
         idx.add(rng.randrange(2 ** rng.randrange(1, 33)))
@@ -461,7 +459,6 @@ def make_case(rng, idx, pool, refs, forced_kind=None):
         argv += [b"-d", b"bogus"]
     if refarg is not None:
         argv += [b"-r", refarg]
-    rng.shuffle(argv) if False else None
     # populate directories
     link_n = [0]
 
@@ -495,7 +492,7 @@ def make_case(rng, idx, pool, refs, forced_kind=None):
             continue
         populate(dr, heavy=(dr == outdir or dr == b"inv"))
     if opts["c"]:
-        argv.insert(rng.randrange(len(argv) + 1) if False else 0, b"-c")
+        argv.insert(0, b"-c")
     argv += [modarg, outarg]
     return {"id": idx, "kind": kind, "tree": tree, "dirs": sorted(dirs), "argv": argv, "outarg": outarg, "outdir": outdir,
             "opts": opts, "module": mname, "mbytes": mbytes, "modstate": modstate, "ref": ref, "refbytes": refbytes,
@@ -718,7 +715,10 @@ def run_case(chk, exes, d, case, model_ans_for, broken, stats, variant):
         r_seq = [e for e in r_main if e[0] != "rm" and not is_impl(e)]
         m_seq = [e for e in m_main if e[0] != "rm" and not is_impl(e)]
         exact_impl = (mexit == 0) or case["opts"]["t"] == 1
-        ok = (r_seq == m_seq and r_rm == m_rm and (r_impl == m_impl if exact_impl else set(m_impl) <= set(r_impl) or set(r_impl) <= set(plan_names(case, facts))))
+        # a failing fopen in one writer thread ends the process while other threads are still writing: with more
+        # than one thread only "every implementation file opened is one of the plan's" is deterministic
+        ok = (r_seq == m_seq and r_rm == m_rm and
+              (r_impl == m_impl if exact_impl else {e[1] for e in r_impl} <= set(plan_names(case, facts))))
         # order: chdir before any mutation, removals before writes
         order_ok = True
         seen_cd = False
@@ -765,7 +765,10 @@ def run_case(chk, exes, d, case, model_ans_for, broken, stats, variant):
         if exact_impl:
             snap_ok = act_w == exp_w and act_d == exp_d
         else:
-            snap_ok = act_d == exp_d and exp_w <= act_w
+            extra = {case["outdir"] + b"/" + n for n in plan_names(case, facts)} if case["outdir"] is not None else set()
+            extra |= {links[p] for p in extra if p in links and p not in removed}
+            impl_w = {p for p in exp_w if p in extra}
+            snap_ok = (exp_w - impl_w) <= act_w <= (exp_w | extra) and act_d == {p for p in removed if p not in act_w}
         if not snap_ok:
             broken.append({"kind": "correspondence",
                            "msg": f"runs: case {case['id']} ({case['kind']}): snapshot written {short(sorted(act_w))} deleted {short(sorted(act_d))} "
